@@ -65,10 +65,23 @@ func oracleC13(l *harness.Live) (c struct {
 		}
 		c.want = want.IDs()
 	}
+	// Every expression of the case is compiled once and that one compiled expression is used
+	// from all start nodes (what a caller who compiles a path to apply it to many nodes does):
+	// the relations of C13 are about one expression, whichever node it is started from.
+	compiled := map[string]*xpath.Expr{}
 	sel := func(e xast.Expr, from *xdoc.Node) ([]int, *harness.Failure) {
 		x := *l
 		x.AST, x.Expr, x.Ctx = e, xast.Render(e), from
-		ids, f := engineSelect(&x)
+		ce, ok := compiled[x.Expr]
+		if !ok {
+			var f *harness.Failure
+			if ce, f = compileLive(&x); f != nil {
+				f.Note = x.Expr + ": " + f.Note
+				return nil, f
+			}
+			compiled[x.Expr] = ce
+		}
+		ids, f := selectWith(ce, &x)
 		if f != nil {
 			f.Note = x.Expr + " from " + from.Desc() + ": " + f.Note
 			return nil, f
@@ -202,6 +215,7 @@ func TestC13Rapid(t *testing.T) {
 		doc := xgen.Doc(rt, o)
 		ctx := xgen.Context(rt, doc, 1)
 		g := xgen.NewG(rt, doc)
+		g.ExtraFuncs = true
 		abs := 0
 		if rapid.Bool().Draw(rt, "absolute") {
 			abs = 10
@@ -213,6 +227,14 @@ func TestC13Rapid(t *testing.T) {
 			p = g.AxisPath(ctx, xgen.PathOpts{MaxSteps: 3, AbsShare: abs, DSlash: 2})
 			if st, ok := p.Steps[len(p.Steps)-1].(*xast.Step); ok {
 				st.Preds = []xast.Expr{g.PosPred()}
+				if rapid.Bool().Draw(rt, "boolfirst") {
+					// a boolean predicate in front of the positional one: a[@x][2]
+					pp := g.PosPred()
+					for harness.Excluded("later-last") && xast.HasCall(pp, "last") {
+						pp = g.PosPred() // known finding KF-later-last: last() behind another predicate in a relative path
+					}
+					st.Preds = []xast.Expr{g.BoolPred(nil, 0), pp}
+				}
 				if st.Abbr && (st.Axis == "self" || st.Axis == "parent") {
 					st.Abbr = false // .[1] and ..[1] have no abbreviated spelling
 				}
